@@ -426,6 +426,8 @@ class Client:
         code, data, challenge = self.__send_command(
             "AUTHENTICATE", [b"DIGEST-MD5"], withcontent=True, nblines=1
         )
+        if code is not None or not challenge:
+            return False
         dmd5 = DigestMD5(challenge, "sieve/%s" % self.srvaddr)
 
         code, data, challenge = self.__send_command(
@@ -433,7 +435,7 @@ class Client:
             withcontent=True,
             nblines=1,
         )
-        if not challenge:
+        if code is not None or not challenge:
             return False
         if not dmd5.check_last_challenge(login, password, challenge):
             self.errmsg = "Bad challenge received from server"
